@@ -524,3 +524,6 @@ func opsString(ops []FileOp) string {
 	}
 	return strings.Join(s, " ")
 }
+
+// Forget drops what was memoised for a program that is no longer needed.
+func Forget(p *Prog) { delete(fileModels, p) }
